@@ -41,11 +41,24 @@ theorem indexCode_feasible (E : Engine σ V) (i : Int) (h1 : (E.lags : Int) < i)
   have d : ¬ i > (E.ncols : Int) - E.leads := by omega
   simp [a, b, c, d]
 
+/-- An in-span column without enough lags or leads: code 13 or 14. -/
+theorem indexCode_infeasible (E : Engine σ V) (i : Int) (h1 : 1 ≤ i) (h2 : i ≤ E.ncols)
+    (h : i ≤ E.lags ∨ i > (E.ncols : Int) - E.leads) :
+    indexCode E i = 13 ∨ indexCode E i = 14 := by
+  unfold indexCode
+  have a : ¬ i < 1 := by omega
+  have b : ¬ i > E.ncols := by omega
+  by_cases c : i ≤ E.lags
+  · left; simp [a, b, c, cIndexLags]
+  · right
+    have d : i > (E.ncols : Int) - E.leads := by omega
+    simp [a, b, c, d, cIndexLeads]
+
+/-- **`FortranEngine.solve_t` is `BaseModel.solve_t`** on finite data. -/
 theorem wSolveT_eq_solveT (W : Wrapped σ V) (o : Opts) (t : Int) (w : World σ) (Inv : σ → Prop)
     (ht : -(W.ncols : Int) ≤ t) (ht' : t < W.ncols)
-    (hfeas : (W.lags : Int) < normT W.ncols t + 1 ∧ normT W.ncols t + 1 ≤ (W.ncols : Int) - W.leads)
-    (herr : o.errors ≠ .invalid) (hmax : 1 ≤ o.maxIter)
-    (R : FiniteRegime W t (normT W.ncols t + 1).toNat Inv)
+    (herr : o.errors ≠ .invalid)
+    (R : FiniteRegime W (normT W.ncols t + 1).toNat Inv)
     (hcopy : ∀ u d s, W.copyEndo (W.copyEndo u d s) d s = W.copyEndo u d s)
     (hseed : Inv (seed (toInterp W) o t w.user)) :
     wSolveT W o t w
@@ -55,11 +68,13 @@ theorem wSolveT_eq_solveT (W : Wrapped σ V) (o : Opts) (t : Int) (w : World σ)
   by_cases h0 : o.minIter > o.maxIter
   · simp [h0, ofResult]
   simp only [h0, if_false]
-  have hfe : ¬ (normT W.ncols t - ((toInterp W).lags : Int) < 0 ∨ normT W.ncols t + ((toInterp W).leads : Int) ≥ W.ncols) := by
-    have a : (toInterp W).lags = W.lags := rfl
-    have b : (toInterp W).leads = W.leads := rfl
-    rw [a, b]; omega
-  simp only [hfe, if_false]
+  have hla : (toInterp W).lags = W.lags := rfl
+  have hle : (toInterp W).leads = W.leads := rfl
+  rw [hla, hle]
+  by_cases hinf : normT W.ncols t - (W.lags : Int) < 0 ∨ normT W.ncols t + (W.leads : Int) ≥ W.ncols
+  · simp [hinf, ofResult]
+  simp only [hinf, if_false]
+  have hfeas : (W.lags : Int) < normT W.ncols t + 1 ∧ normT W.ncols t + 1 ≤ (W.ncols : Int) - W.leads := by omega
   obtain ⟨ec, hec⟩ : ∃ ec, errorOption o.errors = some ec := by
     cases he : o.errors <;> simp [errorOption] <;> exact absurd he herr
   simp only [hec]
@@ -76,8 +91,8 @@ theorem wSolveT_eq_solveT (W : Wrapped σ V) (o : Opts) (t : Int) (w : World σ)
     unfold seed; split <;> rfl
   rw [hu1]
   generalize hu1' : seed (toInterp W) o t w.user = u1 at hseed ⊢
-  have hfin1 : W.allFinite (W.pyCheck u1 (normT W.ncols t + 1).toNat) = true := R.check_finite u1 hseed
-  have hchk : (toInterp W).check u1 t = W.pyCheck u1 (normT W.ncols t + 1).toNat := rfl
+  have hfin1 : W.allFinite (W.check u1 (normT W.ncols t + 1).toNat) = true := R.check_finite u1 hseed
+  have hchk : (toInterp W).check u1 t = W.check u1 (normT W.ncols t + 1).toNat := rfl
   unfold solveCore
   have hal : (toInterp W).allFinite = W.allFinite := rfl
   simp only [hfin1, hchk, hal, Bool.true_eq_false, and_false, if_false]
@@ -85,7 +100,7 @@ theorem wSolveT_eq_solveT (W : Wrapped σ V) (o : Opts) (t : Int) (w : World σ)
   rw [hbef]
   -- the compiled solve_t
   have hidx : indexOf W.ncols (t + 1) = normT W.ncols t + 1 := indexOf_succ W.ncols t ht ht'
-  have hcode : indexCode W.toEngine (normT W.ncols t + 1) = 0 := indexCode_feasible W.toEngine _ hfeas.1 hfeas.2
+  have hcode : indexCode W (normT W.ncols t + 1) = 0 := indexCode_feasible W _ hfeas.1 hfeas.2
   unfold Fortran.solveT
   rw [hidx]
   simp only [hcode, ne_eq, not_true_eq_false, if_false]
@@ -108,17 +123,17 @@ theorem wSolveT_eq_solveT (W : Wrapped σ V) (o : Opts) (t : Int) (w : World σ)
         congr 1; omega
       rw [e, this, hcopy]
     · rw [if_neg hz]
-  have hu2' : (if ¬ o.offset = 0 then
-        W.copyEndo u1 (normT W.ncols t + 1).toNat (normT W.ncols t + 1 + o.offset).toNat else u1) = u1 := hu2
   simp only [ne_eq] at hu2
-  simp only [ne_eq, hu2, R.aligned u1, hfin1, Bool.true_eq_false, and_false, if_false]
+  simp only [ne_eq, hu2, hfin1, Bool.true_eq_false, and_false, if_false]
   -- the loops
-  have hfuel : o.maxIter.toNat ≠ 0 := by omega
+  have hev : ∀ u, evaluate W u (normT W.ncols t + 1).toNat = (W.body u (normT W.ncols t + 1).toNat, 0) :=
+    fun u => evaluate_ok W u _ (by rw [hcast]; exact hcode) (by omega)
   have hloop := floop_eq_loop W ⟨o.minIter, o.maxIter, o.offset, ec, failureOption o.failRaise⟩ o t
-    (normT W.ncols t + 1).toNat Inv R rfl o.maxIter.toNat 1 u1
-    (W.pyCheck u1 (normT W.ncols t + 1).toNat) (-1) (Nat.le_refl 1) hseed hfin1
-  simp only [hfuel, if_false] at hloop
-  cases hl : loop (toInterp W) o t o.maxIter.toNat 1 u1 (W.pyCheck u1 (normT W.ncols t + 1).toNat) with
+    (normT W.ncols t + 1).toNat Inv R rfl rfl hev o.maxIter.toNat 1 u1
+    (W.check u1 (normT W.ncols t + 1).toNat) 0 (Nat.le_refl 1) hseed hfin1
+  have hz : (if o.maxIter.toNat = 0 then (0 : Int) else 0) = 0 := by split <;> rfl
+  rw [hz] at hloop
+  cases hl : loop (toInterp W) o t o.maxIter.toNat 1 u1 (W.check u1 (normT W.ncols t + 1).toNat) with
   | done u s k =>
     rw [hl] at hloop
     cases s with
